@@ -40,6 +40,55 @@ impl<'a, T: Word> Iterator for LogIter<'a, T> {
 }
 impl<'a, T: Word> ExactSizeIterator for LogIter<'a, T> {}
 
+/// exact-size iterator driven by a closure (used when the items are produced by an initialiser that itself allocates in the arena)
+struct FnIt<'f, X> {
+    i: usize,
+    len: usize,
+    f: &'f mut dyn FnMut(usize) -> X,
+}
+impl<'f, X> Iterator for FnIt<'f, X> {
+    type Item = X;
+    fn next(&mut self) -> Option<X> {
+        if self.i >= self.len {
+            return None;
+        }
+        self.i += 1;
+        Some((self.f)(self.i - 1))
+    }
+    fn size_hint(&self) -> (usize, Option<usize>) {
+        (self.len.saturating_sub(self.i), Some(self.len.saturating_sub(self.i)))
+    }
+}
+impl<'f, X> ExactSizeIterator for FnIt<'f, X> {}
+
+/// blocks a slice initialiser allocated in the arena and kept (published to the caller) while the slice was being filled
+pub const MAX_NESTED: usize = 6;
+#[derive(Default)]
+struct Nested {
+    kept: Cell<[usize; MAX_NESTED]>,
+    n: Cell<usize>,
+}
+impl Nested {
+    /// called from inside an initialiser (user mode): element `i` allocates `inner` in the same arena and keeps or releases it
+    fn run<const M: usize>(&self, b: &Bump<M>, aid: u32, behaviour: u8, inner: Layout, i: usize) {
+        if behaviour == 0 || i % 4 != 1 || self.n.get() >= MAX_NESTED {
+            return;
+        }
+        let _g = enter_arena(aid);
+        if let Ok(p) = b.try_alloc_layout(inner) {
+            if behaviour == 1 {
+                let mut k = self.kept.get();
+                k[self.n.get()] = p.as_ptr() as usize;
+                self.kept.set(k);
+                self.n.set(self.n.get() + 1);
+            } else {
+                use allocator_api2::alloc::Allocator;
+                unsafe { b.deallocate(p, inner) };
+            }
+        }
+    }
+}
+
 impl<const M: usize> Sim<M> {
     // -----------------------------------------------------------------------------------------
     // typed values: alloc / try_alloc / alloc_with / try_alloc_with
@@ -352,7 +401,15 @@ impl<const M: usize> Sim<M> {
             return;
         }
         self.note_align_stats(l.size(), l.align());
-        let pre = self.pre(Some(l), fallible);
+        // fill_with / fill_iter initialisers that allocate in the same arena: 0 nothing, 1 allocate and keep, 2 allocate and release
+        let behaviour: u8 = if self.opts.uniform.is_some() || !(flavour == 1 || flavour == 3) || len > 4096 { 0 } else { match op.a >> 6 { 2 => 1, 3 => 2, _ => 0 } };
+        let inner = Layout::from_size_align(1 + (op.b as usize % 40), 1usize << (op.c & 3)).unwrap();
+        let nested = Nested::default();
+        let aid = self.id;
+        let mut pre = self.pre(Some(l), fallible);
+        if behaviour != 0 {
+            pre.fits = false; // the initialiser's own requests may legitimately need a new chunk
+        }
         let id = self.fresh_id();
         let what = match (flavour, fallible) {
             (0, false) => "alloc_slice_copy",
@@ -366,17 +423,18 @@ impl<const M: usize> Sim<M> {
         };
         let src: Vec<T> = if flavour == 0 { (0..len).map(|i| T::from_pat(id, i)).collect() } else { Vec::new() };
         // one fill_iter in four is driven by an iterator that has more items than its len() admits
-        let extra = if flavour == 3 && op.a & 0x30 == 0x30 { 1 + (op.b % 7) as usize } else { 0 };
+        let extra = if flavour == 3 && behaviour == 0 && op.a & 0x30 == 0x30 { 1 + (op.b % 7) as usize } else { 0 };
         let fillv = T::from_pat(id, 7);
         let next = Cell::new(0usize);
         let ordered = Cell::new(true);
         let res = self.call(|b| {
-            let f = |i: usize| {
+            let mut f = |i: usize| {
                 let _u = enter_user();
                 if next.get() != i {
                     ordered.set(false);
                 }
                 next.set(i + 1);
+                nested.run(b, aid, behaviour, inner, i);
                 T::from_pat(id, i)
             };
             let r: Option<&mut [T]> = match (flavour, fallible) {
@@ -386,6 +444,8 @@ impl<const M: usize> Sim<M> {
                 (1, true) => b.try_alloc_slice_fill_with(len, f).ok(),
                 (2, false) => Some(b.alloc_slice_fill_copy(len, fillv)),
                 (2, true) => b.try_alloc_slice_fill_copy(len, fillv).ok(),
+                (_, false) if behaviour != 0 => Some(b.alloc_slice_fill_iter(FnIt { i: 0, len, f: &mut f })),
+                (_, true) if behaviour != 0 => b.try_alloc_slice_fill_iter(FnIt { i: 0, len, f: &mut f }).ok(),
                 (_, false) => Some(b.alloc_slice_fill_iter(LogIter::<T> { id, i: 0, len, extra, log: &next, ordered: &ordered, _t: Default::default() })),
                 (_, true) => b.try_alloc_slice_fill_iter(LogIter::<T> { id, i: 0, len, extra, log: &next, ordered: &ordered, _t: Default::default() }).ok(),
             };
@@ -399,6 +459,11 @@ impl<const M: usize> Sim<M> {
             if outcome != OUT_OK && next.get() != 0 {
                 self.v("C11", format!("{what}: space could not be reserved but the initialiser ran {} times", next.get()));
             }
+        }
+        // what the initialiser allocated and kept is live from now on (registered first, so that the slice is checked against it)
+        for j in 0..nested.n.get() {
+            self.st(St::InitKept);
+            self.register("block kept by a slice initialiser", nested.kept.get()[j], inner.size(), inner.align(), true, None);
         }
         let mut ptr = 0;
         if let Some((p, n)) = r {
@@ -608,6 +673,15 @@ impl<const M: usize> Sim<M> {
         let next = Cell::new(0usize);
         let ordered = Cell::new(true);
         let later_fail = op.a & 0x40 != 0;
+        // initialisers that allocate in the same arena while the slice is being filled: 0 nothing, 1 allocate and keep, 2 allocate and release
+        let behaviour: u8 = if self.opts.uniform.is_some() || len > 4096 { 0 } else { match (op.b.wrapping_mul(31) ^ op.c) % 5 { 3 => 1, 4 => 2, _ => 0 } };
+        let inner = Layout::from_size_align(1 + (op.b as usize % 40), 1usize << (op.c & 3)).unwrap();
+        let nested = Nested::default();
+        let aid = self.id;
+        let mut pre = pre;
+        if behaviour != 0 {
+            pre.fits = false;
+        }
         let res = self.call(|b| {
             let mut f = |i: usize| -> Result<T, E> {
                 let _u = enter_user();
@@ -615,6 +689,7 @@ impl<const M: usize> Sim<M> {
                     ordered.set(false);
                 }
                 next.set(i + 1);
+                nested.run(b, aid, behaviour, inner, i);
                 if i == fail_at {
                     Err(E::new(eid))
                 } else if i > fail_at && later_fail {
@@ -669,6 +744,14 @@ impl<const M: usize> Sim<M> {
         if outcome != OUT_OK && next.get() != 0 {
             self.v("C11", format!("{what}: space could not be reserved but the initialiser ran {} times", next.get()));
         }
+        // blocks the initialiser allocated and kept stay valid whether or not the fill failed
+        for j in 0..nested.n.get() {
+            self.st(St::InitKept);
+            let kid = self.register("block kept by a slice initialiser", nested.kept.get()[j], inner.size(), inner.align(), true, None);
+            if let Some(b) = self.blocks.iter_mut().find(|b| b.id == kid) {
+                b.kept = true;
+            }
+        }
         let mut ptr = 0;
         if init_err {
             self.st(St::FillFail);
@@ -700,7 +783,7 @@ impl<const M: usize> Sim<M> {
                 self.st(St::RewindSame);
             }
             self.observe(OpKind::Alloc);
-            if op.a & 0x80 == 0 {
+            if behaviour == 0 && op.a & 0x80 == 0 {
                 let pre2 = self.pre(Some(l), true);
                 let r = self.call(|b| b.try_alloc_layout(l).ok().map(|p| p.as_ptr() as usize));
                 let (o2, p2) = self.post_call(OpKind::Alloc, "request of the same layout after a failed slice fill", r, pre2);
